@@ -179,7 +179,7 @@ func c16FormatOne(c *Ctx, pool *Pool, i int, tag string, seed uint64, in []byte)
 		c.ev.AddSample(map[string]any{"entry": "format -d / format -f", "input": string(in), "reference_ok": ref.FormatOK, "reference_output": string(ref.FormatOut)}, 6)
 	}
 	// --- format -d ---
-	if len(in) > 0 && !bytes.Contains(in, []byte{0}) && len(in) < 100000 {
+	if len(in) > 0 && !bytes.Contains(in, []byte{0}) && len(in) < 120000 {
 		spell := r.Intn(3)
 		var argv []string
 		switch spell {
@@ -450,7 +450,7 @@ func c16Host(c *Ctx, pool *Pool, i int, n int, realSO bool) error {
 	}
 	for _, s := range pending {
 		in := FormatInput(s)
-		if bytes.Contains(in, []byte{0}) || len(in) > 60000 {
+		if bytes.Contains(in, []byte{0}) || len(in) > 400000 {
 			continue
 		}
 		spec.Calls = append(spec.Calls, HostCall{Thread: r.Intn(spec.Threads), Input: in})
